@@ -593,18 +593,21 @@ pub fn liquidate_reply(
         );
     }
 
-    msgs.append(
-        &mut withdraw(
-            deps.as_ref(),
-            env.clone(),
-            &mut state,
-            &liquidator,
-            config.eligible_collateral,
-            liquidation_fee,
-            pre_paid_shortfall,
-        )
-        .unwrap(),
-    );
+    // a liquidator fee that rounds to zero is not transferred, a zero transfer would fail the liquidation
+    if !liquidation_fee.is_zero() {
+        msgs.append(
+            &mut withdraw(
+                deps.as_ref(),
+                env.clone(),
+                &mut state,
+                &liquidator,
+                config.eligible_collateral,
+                liquidation_fee,
+                pre_paid_shortfall,
+            )
+            .unwrap(),
+        );
+    }
 
     store_state(deps.storage, &state)?;
 
